@@ -112,6 +112,22 @@ def run_session(case, ops=()):
             d = d2
         elif op[0] == 'warm':
             warm(d, op[1])
+        elif op[0] == 'catalog':
+            # building a catalog must leave the dendrogram as it was
+            nd = len(case['shape'])
+            if nd in (2, 3) and len(d) > 0:
+                from astrodendro import pp_catalog, ppv_catalog
+                from astropy import units as u
+                with warnings.catch_warnings():
+                    warnings.simplefilter('ignore')
+                    (pp_catalog if nd == 2 else ppv_catalog)(d, {'data_unit': u.Jy}, fields=['x_cen', 'area_exact'], verbose=False)
+            wf = impl.forest_wellformed(d)
+            try:
+                iobs = impl.observe(d, case) if not wf else None
+            except IndexError as e:
+                raise impl.ImplError('accessors fail after building a catalog: %s' % e)
+            mobs = parse_block(drv.ask('obs'))
+            steps.append(Step(op, iobs, mobs, wf))
         else:
             raise ValueError(op)
     return d, a, order, hooked, steps
